@@ -169,8 +169,8 @@ def lowered_body(spec, unit, log):
         log.append({"dropped": "function-try-block handlers", "count": len(ex.handlers)})
     body = lower.drop_diagnostics(body, log)
     rules = spec.rules + unit.rules
-    body = lower.apply_rules(body, spec.rules, log, 'pre')
     body = lower.apply_rules(body, unit.rules, log, 'pre')
+    body = lower.apply_rules(body, spec.rules, log, 'pre')
     body = lower.apply_rules(body, lower.PRE_IDIOMS, log)
     body = lower.lower_std_move(body, unit.fnslots)
     body = lower.lower_casts(body)
@@ -200,19 +200,11 @@ def inject_loops_and_ats(body, spec, tu_prefix_lines):
     loops = lower.number_loops(body)
     # index loops: 'for'/'while' get numbers in order; do-loops are numbered at their 'do', contract goes at the tail
     numbered = []
-    stack = []
     for kind, pos in loops:
-        if kind == 'do':
-            numbered.append(['do', None])
-            stack.append(len(numbered) - 1)
-        elif kind == 'dotail':
-            i = stack.pop()
-            # contract goes after the closing ')' of the while(...) tail
-            from .extract import match_close
-            c = match_close(body, pos, '(', ')')
-            numbered[i][1] = c + 1
-        else:
-            numbered.append([kind, pos])
+        if kind == 'dotail':
+            continue
+        # for/while: contract after the closing ')' of the header; do-while: right after `do`
+        numbered.append([kind, pos])
     for n, ls in spec.loops.items():
         if n > len(numbered) or numbered[n - 1][1] is None:
             raise ExtractionBreak("loop %d of %s not found (loops in body: %d)" % (n, spec.function, len(numbered)))
